@@ -100,7 +100,10 @@ main (int argc, char **argv)
 
   bool preinit = getenv ("ZSIM_NO_PREINIT") == nullptr;
   if (preinit)
-    init_vocabularies ();
+    {
+      init_vocabularies ();
+      prebuild_vocabulary ();
+    }
 
   printf ("=ready\n");
   fflush (stdout);
